@@ -68,6 +68,8 @@ func TestVerif_C14S(t *testing.T) {
 	for _, sc := range []uint{1, 2, 1024} {
 		for _, sdb := range []int{0, 1} {
 			cfgs = append(cfgs, syncConfig{TargetDB: -1, Resume: true, SenderCount: sc, SenderSize: 64 * 1024, StartDb: sdb, StartOffset: 1000})
+			// the same on a connection that keeps Send arguments until Flush (cluster target)
+			cfgs = append(cfgs, syncConfig{TargetDB: -1, Resume: true, SenderCount: sc, SenderSize: 64 * 1024, StartDb: sdb, StartOffset: 1000, Batched: true, Debug: sc == 2})
 		}
 	}
 	maxLen := 3
